@@ -23,7 +23,7 @@ func init() {
 		Title: "A segment is never closed or deleted while in use, and never leaks",
 		Decides: "the lock-free fast path of the segment reference count can only bump a positive count (never resurrect a dormant segment); every other change of the count holds the segment mutex; " +
 			"resources are closed / the directory removed only under that mutex and only on the branch where the count read under the lock is zero; acquire refuses a segment flagged for deletion before reopening it; " +
-			"the segment's index pointer is accessed under the mutex (or through the hold-a-reference accessors); every segment reference obtained by a caller (SelectSegments, CreateSegmentIfNotExist, segments, incRef) is released or handed to an owner on every exit, and loops that pin several segments unwind on a mid-loop failure; DecRef runs the deferred delete only on the 1→0 transition of a flagged segment; closeResourcesLocked resets every resource field it closes (index pointer, shard list) before returning; a failed (re)open clears segment.index — the \"resources open\" bit — on every failing exit.",
+			"the segment's index pointer is accessed under the mutex (or through the hold-a-reference accessors); every segment reference obtained by a caller (SelectSegments, CreateSegmentIfNotExist, segments, incRef) is released or handed to an owner on every exit, and loops that pin several segments unwind on a mid-loop failure; DecRef runs the deferred delete only on the 1→0 transition of a flagged segment; closeResourcesLocked resets every resource field it closes (index pointer, shard list) before returning; a failed (re)open clears segment.index — the \"resources open\" bit — on every failing exit.; the result of the unpinned scan segments(ctx, false) is never released element by element",
 		NotDecided: "that these invariants compose to safety under every interleaving (a model-checking claim), idle-timer behaviour, liveness of deferred deletes.",
 		Technique:  "SSA value-world pruning on atomic loads/CAS operands; must-lockset; acquire/release pairing with collection ownership; must-clear on every failing exit (open bit)",
 		Run:        runC14,
@@ -95,6 +95,68 @@ func runC14(c *core.Ctx) {
 		}
 		if n == 0 {
 			r.Undecide(rule, ssax.FuncName(f)+": index installation site", r.fpos(f), "no store of a non-nil value to segment.index found")
+		}
+	}
+
+	// 0a. segments(ctx, false) pins only the segments in use at that moment and returns the others unpinned: its
+	// result is never released element by element (that would drop a reference someone else acquired meanwhile)
+	{
+		rule := "c14.unpinned-scan-never-released"
+		n := 0
+		isDecRef := func(in ssa.Instruction) (ssa.Value, bool) {
+			cc := ssax.Common(in)
+			if cc == nil || !strings.HasSuffix(ssax.CalleeName(cc), ").DecRef") || !strings.Contains(ssax.CalleeName(cc), stPkg+".segment") {
+				return nil, false
+			}
+			if cc.IsInvoke() {
+				return cc.Value, true
+			}
+			if len(cc.Args) > 0 {
+				return cc.Args[0], true
+			}
+			return nil, false
+		}
+		for _, f := range funcs {
+			for _, in := range ssax.Find(f, func(in ssa.Instruction) bool {
+				cc := ssax.Common(in)
+				return cc != nil && strings.HasSuffix(ssax.CalleeName(cc), ".segmentController[T, O]).segments")
+			}) {
+				args := ssax.Common(in).Args
+				k, ok := args[len(args)-1].(*ssa.Const)
+				if !ok || k.Value == nil || k.Value.ExactString() != "false" {
+					continue
+				}
+				n++
+				construct := fmt.Sprintf("%s: result of the unpinned scan #%d is not released element-wise", ssax.FuncName(f), n)
+				var res ssa.Value = in.(ssa.Value)
+				bad := ssa.Instruction(nil)
+				for _, d := range ssax.Find(f, func(x ssa.Instruction) bool { _, ok := isDecRef(x); return ok }) {
+					recv, _ := isDecRef(d)
+					seen := map[ssa.Value]bool{}
+					var from func(v ssa.Value, depth int) bool
+					from = func(v ssa.Value, depth int) bool {
+						if v == nil || seen[v] || depth > 12 {
+							return false
+						}
+						seen[v] = true
+						if v == res {
+							return true
+						}
+						return anyOperand(v, func(o ssa.Value) bool { return from(o, depth+1) })
+					}
+					if from(recv, 0) {
+						bad = d
+					}
+				}
+				if bad != nil {
+					r.Violate(rule, construct, r.pos(bad), "the scan returns dormant segments without a reference, yet every element is DecRef'ed: a query or writer that acquires such a segment between the scan and the DecRef loses its reference, the count reads 0 while the segment is in use, and idle-close / delete can pull it out from under the holder")
+				} else {
+					r.Hold(rule, construct, r.pos(in), "")
+				}
+			}
+		}
+		if n == 0 {
+			r.Hold(rule, "no production caller uses the unpinned scan", "", "segments(ctx, false) has no call site in the storage package")
 		}
 	}
 
